@@ -1,4 +1,7 @@
 import TpmProofs.DecodeOk
+import TpmProofs.DecodeSound
+import TpmProofs.MsgPump
+import TpmModel.Generated.Types
 import TpmProofs.Props.C08
 /-!
 # C03 — strict mode accepts an input only if every size field is exact
@@ -80,5 +83,59 @@ theorem c03_subceeded (c : SC) (s : St) (m : Nat) (hm : c.max = some m) (hne : c
 theorem c03_exact_ok (abort : Bool) (c : SC) (s : St) (m : Nat) (hm : c.max = some m) (he : c.already = m) :
     assertDoneSC abort c s = .ok ((), s) := by
   simp [assertDoneSC, hm, he]
+
+/-! ## acceptance ⇒ every size field exact (structures) -/
+
+/-- (tables) every layout in `/repo` meets the side conditions of the converse: size fields of size-prefixed
+buffers are at least one byte wide, signed fields are at least one byte wide -/
+theorem c03_tables : Generated.allTypes.all Ty.wf = true := by decide +kernel
+
+/-- **C03, "accepts only if"** (walker level): whatever the strict walker accepts for a layout conforms to it — in
+particular (that is what `spec` demands of a `TPM2B`) every size field equals the byte length of the region it
+governs, every count equals the number of elements, every value is in its set; the bytes consumed are exactly the
+encoding, the events exactly the dictated ones, every enclosing region charged exactly the length -/
+theorem c03_accept_only_if (t : Ty) (hwf : t.wf = true) (path : Path) (sel : Option Int) (s s' : St) (v : Val)
+    (hfresh : Fresh s.scs s.pos) (h : decode true t path sel s = .ok (v, s')) : Snd (spec t path sel v) s s' :=
+  decode_sound t hwf path sel s s' v hfresh h
+
+/-- **C01 ∧ C03 for structures: strict acceptance ⇔ conformance.**  `Binary.marshal(T, x)` completes with object `v`
+if and only if `v` conforms to `T` with encoding exactly `x`; and then the events shown are exactly the dictated ones -/
+theorem c03_accept_iff (t : Ty) (hwf : t.wf = true) (tb : MsgTables) (x : List Byte) (v : Val) :
+    (marshalRun true tb (.ty t) x).outcome = .done v ↔ ∃ evs, spec t rootPath none v = some (x, evs) := by
+  constructor
+  · intro h
+    -- the pump reports `done` only if the walker succeeded with nothing left
+    have hrun : ∃ s', runWalker true tb (.ty t) x = .ok (v, s') ∧ s'.inp = [] := by
+      rw [outcome_nonstream tb (.ty t) rfl x] at h
+      obtain ⟨hres, hpos⟩ := pumpOutcome_done h
+      cases hw : runWalker true tb (.ty t) x with
+      | error e => rw [hw] at hres; obtain ⟨e, s⟩ := e; simp [resOf] at hres
+      | ok vs =>
+        obtain ⟨v', s'⟩ := vs
+        rw [hw] at hres hpos
+        simp only [resOf, Except.ok.injEq] at hres
+        subst hres
+        refine ⟨s', rfl, ?_⟩
+        have hacct := runWalker_acct tb (.ty t) x
+        rw [hw] at hacct
+        obtain ⟨new, off, h1, h2, h3, h4, h5⟩ := hacct
+        have hoff : off = [] := h5 rfl
+        subst hoff
+        simp only [stOf, initSt, List.append_nil, List.length_nil, Nat.add_zero, Nat.zero_add] at h2 h3 hpos
+        have hlen : x.length = (evBytes new).length + s'.inp.length := by
+          conv => lhs; rw [h2]
+          simp
+        exact List.eq_nil_of_length_eq_zero (by omega)
+    obtain ⟨s', hw, hinp⟩ := hrun
+    obtain ⟨bs, evs, hspec, hi, _, _, _⟩ := decode_sound t hwf rootPath none (initSt x) s' v
+      (by intro c hc; cases hc) (by simpa [runWalker] using hw)
+    simp only [initSt, hinp, List.append_nil] at hi
+    exact ⟨evs, by rw [hspec, hi]⟩
+  · rintro ⟨evs, h⟩
+    have := decode_ok t rootPath none v x evs h [] 0 [] [] (by intro c hc; cases hc) (by intro c hc; cases hc)
+    have hw : runWalker true tb (.ty t) x = .ok (v, ⟨[], x.length, stamp 0 evs, []⟩) := by
+      simpa [runWalker, initSt, post, bump] using this
+    rw [outcome_nonstream tb (.ty t) rfl x, hw]
+    simp [pumpOutcome, stOf, resOf]
 
 end C03
